@@ -5,6 +5,8 @@ from props import c18_arc
 
 def run(ctx):
     ctx.prove(props=["C18_arc"])
+    from props import c18
+    c18.gen_steps(ctx, ("arcenum",))
     c18_arc.run_part(ctx)
     if ctx.tier == "thorough":
         ctx.coqchk("VQP.C18_arc")
